@@ -245,6 +245,11 @@ let handle (toks : string list) : string =
       | "F" :: tl ->
         cache := None; out := "f" :: !out;
         go (k - 1) tl
+      | "N" :: _t :: tl ->
+        (* a daemon that starts over the segment and dies before publishing: the segment keeps what it holds
+           (a generation left odd stays odd) *)
+        out := "n" :: !out;
+        go (k - 1) tl
       | _ -> failwith "wld: bad item" in
     go (int_of_string n) rest;
     String.concat " " (Stdlib.List.rev !out)
